@@ -87,15 +87,15 @@ def run(c):
                        disagreements_checked=len(mism), input_distribution=dict(dist), oracle_violations=len(viol))
             if rc != 0 or "cases" not in summ:
                 c.broken.append("model driver failed: %s" % mout[-1000:])
-        if c.tier == "thorough":
-            # the same runs under the race detector (needs cgo + a C compiler)
+        if True:
+            # the same runs under the race detector (needs cgo + a C compiler); the quick tier takes one repetition
             okr, outr = c.go_build(race=True)
             if not okr:
                 c.broken.pop()  # not a defect of the library: recorded as a limitation instead
                 race_note = "race-detector build impossible here: %s" % outr[-300:]
             else:
                 rcases = os.path.join(c.work, "c10race.cases")
-                rc, out = c.harness(["c10", rcases, "3"], timeout=2400, race=True)
+                rc, out = c.harness(["c10", rcases, "3" if c.tier == "thorough" else "1"], timeout=2400, race=True)
                 races = out.count("WARNING: DATA RACE")
                 cov["race_detector"] = {"runs": sum(1 for _ in open(rcases)) if os.path.exists(rcases) else 0,
                                         "data_races": races, "rc": rc}
